@@ -7,6 +7,7 @@ import (
 	"math"
 	"reflect"
 	"regexp"
+	"sort"
 	"strconv"
 	"strings"
 	"sync"
@@ -473,10 +474,14 @@ func convMapToTarget(source interface{}, target reflect.Type) (interface{}, erro
 
 	sv := reflect.ValueOf(source)
 	result := reflect.MakeMap(target)
-	iter := sv.MapRange()
-	for iter.Next() {
-		k := iter.Key()
-		v := iter.Value()
+	// visit the entries in key order, so that the entry reported by a failed
+	// conversion does not depend on Go's randomised map iteration
+	keys := sv.MapKeys()
+	sort.Slice(keys, func(i, j int) bool {
+		return fmt.Sprint(keys[i].Interface()) < fmt.Sprint(keys[j].Interface())
+	})
+	for _, k := range keys {
+		v := sv.MapIndex(k)
 		evalue, err := convTypeToTarget(v.Interface(), target.Elem())
 		if err != nil {
 			return nil, err
